@@ -36,7 +36,11 @@ func (w *world) censusOf(owner string) []string {
 
 func scenarioShutdown(w *world) {
 	cfg := genConfig(w, cfgOpts{wrapBias: true, maxLossPPM: 300000})
+	shifted := seqShiftConfig(w, cfg) // C16s: the same scenario as one half of a shifted twin pair
 	w.setup(cfg)
+	if shifted {
+		w.sim.noPerm = true
+	}
 	x := newXfer(w)
 	mon := w.installMonitor(x)
 	w.net.faultsOn = false
